@@ -668,3 +668,26 @@ Proof.
       * apply negb_false_iff in Hc. subst onlyCaps. right. split; [|now apply Hcaps].
         intros E. apply Hln. rewrite (Hcaps eq_refl), E. reflexivity.
 Qed.
+
+(* ---- session creation ----------------------------------------------------------------------------- *)
+Lemma InvM_create (sv : server) (key : N * N) (s0 : session) :
+  InvM sv -> sv_sessions sv !! key = None ->
+  s_key s0 = key -> s_nick s0 = "" -> s_channels s0 = ∅ ->
+  InvM (set_sessions (<[key := s0]>) sv).
+Proof.
+  intros I Hnone Hk Hn Hc. split; cbn [sv_sessions sv_nicks sv_channels set_sessions].
+  - intros k s. destruct (decide (key = k)) as [<-|Hne].
+    + rewrite lookup_insert. intros [= <-]. exact Hk.
+    + rewrite lookup_insert_ne by assumption. apply (i_key sv I).
+  - intros n k Hnk. destruct (i_idx_sound sv I _ _ Hnk) as (Hne & s & Hs & Hd & Hl). split; [exact Hne|].
+    exists s. rewrite lookup_insert_ne by congruence. auto.
+  - intros k s. destruct (decide (key = k)) as [<-|Hne].
+    + rewrite lookup_insert. intros [= <-] _ Hnn. congruence.
+    + rewrite lookup_insert_ne by assumption. apply (i_idx_complete sv I).
+  - intros lc c n p Hcl Hm. destruct (i_memb_c sv I _ _ _ _ Hcl Hm) as (k & s & Hnk & Hs & Hin).
+    exists k, s. rewrite lookup_insert_ne by congruence. auto.
+  - intros k s lc. destruct (decide (key = k)) as [<-|Hne].
+    + rewrite lookup_insert. intros [= <-] _ Hin. rewrite Hc in Hin. set_solver.
+    + rewrite lookup_insert_ne by assumption. apply (i_memb_s sv I).
+  - apply (i_chan sv I).
+Qed.
